@@ -207,6 +207,35 @@ func c04Mutants(rng *rand.Rand, w *core.World, orig []byte, other []byte) []muta
 		t.Signatures[i].Signed = append(append([]byte{}, t.Signatures[i].Signed...), byte(rng.Intn(256)))
 		return true
 	})
+	// one signer's signature copied into another signer's slot (same count, every signature verifies for somebody)
+	add("sig-slot-copied", func(t *action.SignedTx) bool {
+		if len(t.Signatures) < 2 || t.Signatures[0].Signer.Equal(t.Signatures[1].Signer) {
+			return false
+		}
+		i := rng.Intn(2)
+		t.Signatures[1-i] = t.Signatures[i]
+		return true
+	})
+	// OLVM: the chain id field of the payload set to null (the Ethereum signature binds the chain id itself)
+	add("olvm-chainid-null", func(t *action.SignedTx) bool {
+		if t.Type != action.OLVM {
+			return false
+		}
+		i := bytes.Index(t.Data, []byte(`"chainID":`))
+		if i < 0 {
+			return false
+		}
+		j := i + len(`"chainID":`)
+		k := j
+		for k < len(t.Data) && t.Data[k] >= '0' && t.Data[k] <= '9' {
+			k++
+		}
+		if k == j {
+			return false
+		}
+		t.Data = append(append(append([]byte{}, t.Data[:j]...), []byte("null")...), t.Data[k:]...)
+		return true
+	})
 	add("sig-flip", func(t *action.SignedTx) bool {
 		if len(t.Signatures) == 0 || len(t.Signatures[0].Signed) == 0 {
 			return false
